@@ -179,6 +179,26 @@ def c17(ctx):
     ctx.mon("c17/pure-debug", "pure", "debug", ["c17", "--scale", "0.3"])
 
 
+B3_FEATURES = {"asm": [], "intr": ["--features", "intr"], "pure": ["--features", "pure"]}
+
+
+def b3sum_bin(flavour="asm", profile="release"):
+    return core.cargo_build(flavour, profile, package="b3wrap", binname="b3sum", features=B3_FEATURES[flavour])
+
+
+def b3mon_bin(profile="debug"):
+    return core.cargo_build("asm", profile, package="b3inc", binname="b3mon", features=[])
+
+
+def c13(ctx):
+    exe = b3mon_bin("debug")
+    ctx.mon("c13/lines", "asm", "debug", ["lines"], binary=exe)
+    ctx.mon("c13/paths", "asm", "debug", ["paths"], binary=exe)
+    exe_r = b3mon_bin("release")
+    ctx.mon("c13/lines-release", "asm", "release", ["lines"], binary=exe_r)
+    ctx.mon("c13/paths-release", "asm", "release", ["paths"], binary=exe_r)
+
+
 PROPS = {
     "C01": c01,
     "C02": c02,
@@ -189,6 +209,7 @@ PROPS = {
     "C09": c09,
     "C10": c10,
     "C11": c11,
+    "C13": c13,
     "C14": c14,
     "C15": c15,
     "C16": c16,
